@@ -1,7 +1,7 @@
 SPECIFICATION Spec
 CONSTANTS
   K = 3
-  WProgs <- W52
+  WProgs <- WT
   RProgs <- NoProg
   RawW = FALSE
   RawR = TRUE
